@@ -1,5 +1,84 @@
+"""Sidecar contracts for a5/core/compact.py and, at the abstract (loop) level, for its callees.
+
+Abstract level: ints are mathematical (z3 Int); RES, VALIDID, NCHILD, CHILD, PS, ... are uninterpreted symbols
+declared by the harness.  Loop ordinals are in source order inside each function.
+"""
 from ..pyvc.contracts import Contract, LoopContract
+
+GRES = "a5.core.serialization.get_resolution"
+NUMCHILD = "a5.core.cell_info.get_num_children"
+CHILDREN = "a5.core.serialization.cell_to_children"
+PARENT = "a5.core.serialization.cell_to_parent"
+FIRST = "a5.core.serialization.is_first_child"
+STRIDE = "a5.core.serialization.get_stride"
+UNCOMPACT = "a5.core.compact.uncompact"
+COMPACT = "a5.core.compact.compact"
+
+EXPECT = "(cells[k] if RES(cells[k]) == target_resolution else CHILD(cells[k], target_resolution, j))"
+NC = "NCHILD(RES(cells[k]), target_resolution)"
 
 
 def register(reg):
-    pass
+    # ---- callees, by contract (each is discharged against the real body at bit level: C05/C06/C20 tasks)
+    reg.add(Contract(GRES, requires=[("valid-id", "VALIDID(index)")],
+                     ensures=[("res", "result == RES(index) and -1 <= result and result <= 29")], result_type="int"))
+    reg.add(Contract(NUMCHILD, requires=[("levels", "-1 <= parent_resolution and parent_resolution <= 30 and "
+                                                    "-1 <= child_resolution and child_resolution <= 30")],
+                     ensures=[("count", "result == NCHILD(parent_resolution, child_resolution)")], result_type="int"))
+    reg.add(Contract(CHILDREN,
+                     requires=[("valid-id", "VALIDID(index)"), ("level-given", "child_resolution is not None")],
+                     raises={"ValueError": "child_resolution < RES(index) or child_resolution > 30"},
+                     ensures=[("len", "len(result) == NCHILD(RES(index), child_resolution)"),
+                              ("elems", "all(result[q] == CHILD(index, child_resolution, q) for q in range(0, len(result)))")],
+                     result_type="intlist"))
+    register_compact(reg)
+    # ---- uncompact
+    reg.add(Contract(
+        UNCOMPACT,
+        loops={
+            0: LoopContract(counter="_n", invariant=[
+                ("size-is-prefix-sum", "n == PS(_n) and 0 <= n"),
+                ("levels-recorded", "len(resolutions) == _n"),
+                ("levels-are-resolutions", "all(resolutions[k] == RES(cells[k]) and -1 <= RES(cells[k]) and "
+                                           "RES(cells[k]) <= target_resolution for k in range(0, _n))"),
+                ("prefix-sums-bounded", "all(0 <= PS(k) and PS(k) <= n for k in range(0, _n + 1))"),
+            ]),
+            1: LoopContract(counter="_i", invariant=[
+                ("offset-is-prefix-sum", "offset == PS(_i)"),
+                ("result-length", "len(result) == n"),
+                ("blocks-before-offset", "all(PS(k) + %s <= offset for k in range(0, _i))" % NC),
+                ("blocks-written", "all(all(result[PS(k) + j] == %s for j in range(0, %s)) for k in range(0, _i))" % (EXPECT, NC)),
+            ]),
+            2: LoopContract(counter="_j", invariant=[
+                ("result-length", "len(result) == n"),
+                ("copied-so-far", "all(result[offset + jj] == children[jj] for jj in range(0, _j))"),
+                ("earlier-blocks-kept", "all(result[p] == old_result[p] for p in range(0, offset))"),
+            ]),
+        },
+    ))
+
+
+# ------------------------------------------------------------------------------------------------ compact
+ANY_RESULT = "any(ANCX(result[k]) for k in range(0, len(result)))"
+ANY_CUR = "any(ANCX(current_cells[k]) for k in range(0, len(current_cells)))"
+ANY_CUR_FROM_I = "any(ANCX(current_cells[k]) for k in range(i, len(current_cells)))"
+ANY_CELLS = "any(ANCX(cells[k]) for k in range(0, len(cells)))"
+
+
+def register_compact(reg, coverage=True, canonical=False):
+    """Loop contracts of compact.  `coverage` adds the C08 invariants (pointwise coverage of a fixed probe cell x),
+    `canonical` the C09 invariants (sorted by the key the code sorts by, pairwise unrelated, no group skipped)."""
+    reg.add(Contract(FIRST, requires=[("valid-id", "VALIDID(index)"), ("level", "resolution is not None and resolution == RES(index) and resolution >= 0")],
+                     ensures=[("first", "result == FIRSTC(index)")], result_type="bool"))
+    reg.add(Contract(STRIDE, requires=[("level", "0 <= resolution and resolution <= 29")],
+                     ensures=[("stride", "result == STRIDEF(resolution) and result > 0")], result_type="int"))
+    reg.add(Contract(PARENT, requires=[("valid-id", "VALIDID(index) and RES(index) >= 0"), ("default-level", "parent_resolution is None")],
+                     ensures=[("parent", "result == PAR1(index) and VALIDID(result) and RES(result) == RES(index) - 1")], result_type="int"))
+    outer = [("elements-valid", "all(VALIDID(current_cells[k]) and -1 <= RES(current_cells[k]) and RES(current_cells[k]) <= RX "
+                                "for k in range(0, len(current_cells)))")]
+    inner = [("index-range", "0 <= i and i <= len(current_cells)"),
+             ("emitted-valid", "all(VALIDID(result[k]) and -1 <= RES(result[k]) and RES(result[k]) <= RX for k in range(0, len(result)))")]
+    if coverage:
+        outer.append(("coverage-kept", "(%s) == (%s)" % (ANY_CUR, ANY_CELLS)))
+        inner.append(("coverage-split", "((%s) or (%s)) == (%s)" % (ANY_RESULT, ANY_CUR_FROM_I, ANY_CUR)))
+    reg.add(Contract(COMPACT, loops={0: LoopContract(invariant=outer), 1: LoopContract(invariant=inner)}))
